@@ -250,6 +250,40 @@ pub fn run(run: &mut Run) {
                 calls.push(Stmt::Expr(callv(&name, vec![])));
             }
         }
+        // composite values assembled from component globals that are declared *after* them (top-level order is
+        // irrelevant): third block of prints
+        if job.op.is_some() && !job.mixed {
+            let mut comps: Vec<Top> = Vec::new();
+            for (k, a) in d.values.iter().enumerate() {
+                let mut ci = 0usize;
+                let mut hoist = |x: &Expr, comps: &mut Vec<Top>| -> Expr {
+                    let name = format!("c{}_{}", k, ci);
+                    ci += 1;
+                    comps.push(Top::Def { name: name.clone(), mutable: false, ty: None, value: x.clone() });
+                    var(&name)
+                };
+                let w = match a {
+                    Expr::Tuple(xs) if !xs.is_empty() => Expr::Tuple(xs.iter().map(|x| hoist(x, &mut comps)).collect()),
+                    Expr::List(xs) if !xs.is_empty() => Expr::List(xs.iter().map(|x| hoist(x, &mut comps)).collect()),
+                    Expr::Blob(n, fs) => Expr::Blob(n.clone(), fs.iter().map(|(f, x)| (f.clone(), hoist(x, &mut comps))).collect()),
+                    Expr::Variant(en, v, Some(p)) => Expr::Variant(en.clone(), v.clone(), Some(Box::new(hoist(p, &mut comps)))),
+                    other => hoist(other, &mut comps),
+                };
+                ts.push(Top::Def { name: format!("w{}", k), mutable: false, ty: None, value: w });
+            }
+            ts.extend(comps);
+            let mut prints3 = Vec::new();
+            for k in 0..d.values.len() {
+                for l in 0..d.values.len() {
+                    prints3.push(print_of(bin(job.op.unwrap(), var(&format!("w{}", k)), var(&format!("w{}", l)))));
+                }
+            }
+            for (k, chunk) in prints3.chunks(8).enumerate() {
+                let name = format!("wpart{}", k);
+                ts.push(top_fn(&name, vec![], RetAnn::Void, chunk.to_vec()));
+                calls.push(Stmt::Expr(callv(&name, vec![])));
+            }
+        }
         // start itself calls the parts in chunks as well
         let mut start_body = Vec::new();
         for (k, chunk) in calls.chunks(20).enumerate() {
@@ -295,7 +329,7 @@ pub fn run(run: &mut Run) {
                             acc.fail(Failure {
                                 sig: format!("wrong-result:{}", opname),
                                 preds: vec![format!("domain:{}", d.name)],
-                                detail: format!("{} ({}): Lua printed {:?}, the structural definition gives {:?}", label, if half == 0 { "literals" } else { "through variables" }, lua[idx], reference[idx]),
+                                detail: format!("{} ({}): Lua printed {:?}, the structural definition gives {:?}", label, match half { 0 => "literals", 1 => "through variables", _ => "assembled from component globals declared later" }, lua[idx], reference[idx]),
                                 case: json!({"engine": "c19", "files": files, "line": idx, "expected": reference[idx]}),
                                 size: label.len(),
                             });
@@ -385,7 +419,7 @@ pub fn run(run: &mut Run) {
     }
     library_values(&mut st);
     run.stats = st;
-    run.rule = "value domains: ints, floats, strings, bools, tuples of arity 0-3 (int, float/int, int/str, nested), lists (of ints, tuples, lists), a two-field blob, a blob nesting a blob, an enum with payload / without / tuple payload; every ordered pair of each domain (as literals and through variables) under every operator the checker types for it (== != < <= > >= + - * / and unary -), int x float under < >; enum values made by the standard library (list.get / last / pop / find, dict.get) against the same values written in source, bare and nested in tuples and lists, under == and != (121 ordered pairs x 5 nestings); non-trivial = every evaluated operator application; distinct by operands+operator".into();
+    run.rule = "value domains: ints, floats, strings, bools, tuples of arity 0-3 (int, float/int, int/str, nested), lists (of ints, tuples, lists), a two-field blob, a blob nesting a blob, an enum with payload / without / tuple payload; every ordered pair of each domain (as literals, through variables, and as constants assembled from component globals declared after them) under every operator the checker types for it (== != < <= > >= + - * / and unary -), int x float under < >; enum values made by the standard library (list.get / last / pop / find, dict.get) against the same values written in source, bare and nested in tuples and lists, under == and != (121 ordered pairs x 5 nestings); non-trivial = every evaluated operator application; distinct by operands+operator".into();
     run.bounds = json!({"domains": doms.iter().map(|d| json!({"name": d.name, "values": d.values.len()})).collect::<Vec<_>>()});
     run.assumptions = vec![
         "the structural definition is RefSylt's (element-wise arithmetic, lexicographic order, structural equality), the laws are checked on the Lua results alone".into(),
